@@ -1130,6 +1130,180 @@ fn run_conf(rep: &mut Report, r: &mut Rng, repos: &Repos, conf: &Conf, contents:
     }
 }
 
+
+// ---------------------------------------------------------------------------------------------
+// the full cross product {text, -text, text=auto, text=input, crlf, -crlf, crlf=input, unset} ×
+// {eol=lf, eol=crlf, eol unset} on distinct paths of ONE .gitattributes, under every
+// core.autocrlf × core.eol, in both directions, judged by git and by the model
+
+const CROSS_TEXT: &[&str] = &["text", "-text", "text=auto", "text=input", "crlf", "-crlf", "crlf=input", ""];
+const CROSS_EOL: &[&str] = &["eol=lf", "eol=crlf", ""];
+const CROSS_CONTENTS: &[&[u8]] = &[b"a\nb\r\nc\n", b"x\r\ny\r\n", b"p\nq\n", b"r\rs\n", b"no eol"];
+
+fn run_cross(rep: &mut Report, repos: &Repos, autocrlf: usize, eol: usize) {
+    let mut attrs = String::new();
+    let mut files: Vec<(String, Vec<u8>)> = Vec::new();
+    let mut i = 0;
+    for t in CROSS_TEXT {
+        for e in CROSS_EOL {
+            if !(t.is_empty() && e.is_empty()) {
+                attrs.push_str(&format!("c{i}_* {t} {e}\n"));
+            }
+            for (k, c) in CROSS_CONTENTS.iter().enumerate() {
+                files.push((format!("c{i}_{k}"), c.to_vec()));
+            }
+            i += 1;
+        }
+    }
+    let conf = Conf { attrs: attrs.clone(), autocrlf, eol };
+    let (an, en) = (AUTOCRLF[autocrlf].1, EOLS[eol].1);
+    let git_conflict = an == "input" && en == "crlf";
+    let gattrs = GixAttrs::new(&attrs);
+    let mut skip = Gix::new(&conf, CrlfRoundTripCheck::Skip);
+    rep.bucket(&format!("cross:autocrlf={an} eol={en}"));
+    if git_conflict {
+        for (n, w) in &files {
+            let t = gattrs.tokens(n);
+            let gtok = format!("{} {} {} {}", t[0], t[1], t[2], t[3]);
+            let (obs, _) = skip.to_git(w, n, &None);
+            rep.case(&format!("pgit {gtok} {an} {en} skip none {}", hex(w)), &obs, true);
+            let (obs, _) = skip.to_worktree(w, n);
+            rep.case(&format!("pwt {gtok} {an} {en} {} {}", hex(blob_hex(w).as_bytes()), hex(w)), &obs, true);
+        }
+        return;
+    }
+    repos.reset();
+    let flags = conf.git_flags("false");
+    let name_list: String = files.iter().map(|(n, _)| format!("{n}\n")).collect();
+    // git's view of the attributes of every path, in one call
+    let a = repos.a.clone();
+    std::fs::write(a.join(".gitattributes"), &attrs).unwrap();
+    for (n, w) in &files {
+        std::fs::write(a.join(n), w).unwrap();
+    }
+    let mut args: Vec<&str> = vec!["check-attr", "text", "crlf", "eol", "ident", "--"];
+    args.extend(files.iter().map(|(n, _)| n.as_str()));
+    let out = git_ok(&a, &args, None);
+    let mut git_tok: std::collections::HashMap<String, [String; 4]> = std::collections::HashMap::new();
+    for l in out.lines() {
+        let mut it = l.splitn(3, ": ");
+        let path = it.next().unwrap_or("").to_string();
+        let name = it.next().unwrap_or("");
+        let val = it.next().unwrap_or("");
+        let tok = match val {
+            "set" => "s".to_string(),
+            "unset" => "n".to_string(),
+            "unspecified" => "u".to_string(),
+            v => format!("v{}", hex(v.as_bytes())),
+        };
+        let idx = match name {
+            "text" => 0,
+            "crlf" => 1,
+            "eol" => 2,
+            "ident" => 3,
+            _ => continue,
+        };
+        git_tok.entry(path).or_insert_with(|| [String::new(), String::new(), String::new(), String::new()])[idx] = tok;
+    }
+    // to git
+    let o = git(&a, &git_flags(&flags, &["hash-object", "-w", "--stdin-paths"]), Some(name_list.as_bytes()));
+    assert!(o.ok, "cross hash-object: {}", String::from_utf8_lossy(&o.stderr));
+    let ids: Vec<String> = String::from_utf8_lossy(&o.stdout).lines().map(|s| s.to_string()).collect();
+    assert_eq!(ids.len(), files.len());
+    let blobs = cat_blobs(&a, &ids);
+    for ((n, w), id) in files.iter().zip(&ids) {
+        let g = &blobs[id];
+        let t = gattrs.tokens(n);
+        let gtok = format!("{} {} {} {}", t[0], t[1], t[2], t[3]);
+        let st = &git_tok[n];
+        let stok = format!("{} {} {} {}", st[0], st[1], st[2], st[3]);
+        let (obs, bytes) = skip.to_git(w, n, &None);
+        let op = format!("pgit {gtok} {an} {en} skip none {}", hex(w));
+        rep.case(&op, &obs, true);
+        rep.case(&format!("sgit {stok} {an} {en} skip none {}", hex(w)), &format!("{} warn=none", hex(g)), true);
+        rep.oracle_checked();
+        rep.git_checked(1);
+        if bytes.as_deref() != Some(&g[..]) {
+            rep.oracle_failure(
+                &format!("to-git [{}] autocrlf={an} eol={en} src={}", attrs_of(&attrs, n), short_key(w)),
+                &format!("Pipeline::convert_to_git gives {:?} but `git hash-object --path` stores {:?} for {:?}",
+                    bytes.as_ref().map(|b| b.as_bstr()), g.as_bstr(), w.as_bstr()),
+                &op,
+            );
+        }
+    }
+    // to worktree
+    let d = repos.d.clone();
+    for (n, w) in &files {
+        std::fs::write(d.join(format!("s{n}")), w).unwrap();
+    }
+    let src_list: String = files.iter().map(|(n, _)| format!("s{n}\n")).collect();
+    let o = git(&d, &["hash-object", "-w", "--no-filters", "--stdin-paths"], Some(src_list.as_bytes()));
+    assert!(o.ok, "cross hash-object --no-filters");
+    let sids: Vec<String> = String::from_utf8_lossy(&o.stdout).lines().map(|s| s.to_string()).collect();
+    let mut info = String::new();
+    let mut req = String::new();
+    for ((n, _), id) in files.iter().zip(&sids) {
+        info.push_str(&format!("100644 {id}\t{n}\n"));
+        req.push_str(&format!("{id} {n}\n"));
+    }
+    let o = git(&d, &["update-index", "--index-info"], Some(info.as_bytes()));
+    assert!(o.ok, "cross update-index {}", String::from_utf8_lossy(&o.stderr));
+    std::fs::write(d.join(".gitattributes"), &attrs).unwrap();
+    let o = git(&d, &git_flags(&flags, &["checkout-index", "-f", "-a"]), None);
+    assert!(o.ok, "cross checkout-index {}", String::from_utf8_lossy(&o.stderr));
+    let o = git(&d, &git_flags(&flags, &["cat-file", "--batch", "--filters"]), Some(req.as_bytes()));
+    assert!(o.ok, "cross cat-file --filters {}", String::from_utf8_lossy(&o.stderr));
+    let headers: Vec<String> = sids.iter().zip(&files).map(|(id, (_, w))| format!("{id} blob {}\n", w.len())).collect();
+    let mut rest = &o.stdout[..];
+    let mut inmem: Vec<Vec<u8>> = Vec::new();
+    for k in 0..headers.len() {
+        assert!(rest.starts_with(headers[k].as_bytes()), "cross cat-file header {k}");
+        rest = &rest[headers[k].len()..];
+        let end = if k + 1 < headers.len() {
+            let delim = format!("\n{}", headers[k + 1]);
+            rest.find(delim.as_bytes()).expect("next header")
+        } else {
+            rest.len() - 1
+        };
+        inmem.push(rest[..end].to_vec());
+        rest = &rest[end + 1..];
+    }
+    for (k, ((n, w), id)) in files.iter().zip(&sids).enumerate() {
+        let g = std::fs::read(d.join(n)).unwrap();
+        let t = gattrs.tokens(n);
+        let gtok = format!("{} {} {} {}", t[0], t[1], t[2], t[3]);
+        let st = &git_tok[n];
+        let stok = format!("{} {} {} {}", st[0], st[1], st[2], st[3]);
+        let (obs, bytes) = skip.to_worktree(w, n);
+        let op = format!("pwt {gtok} {an} {en} {} {}", hex(id.as_bytes()), hex(w));
+        rep.case(&op, &obs, true);
+        rep.case(&format!("swt {stok} {an} {en} {} {}", hex(id.as_bytes()), hex(w)), &hex(&g), true);
+        rep.case(&format!("swtm {stok} {an} {en} {} {}", hex(id.as_bytes()), hex(w)), &hex(&inmem[k]), true);
+        rep.oracle_checked();
+        rep.git_checked(2);
+        if bytes.as_deref() != Some(&g[..]) || bytes.as_deref() != Some(&inmem[k][..]) {
+            rep.oracle_failure(
+                &format!("to-worktree [{}] autocrlf={an} eol={en} src={}", attrs_of(&attrs, n), short_key(w)),
+                &format!(
+                    "Pipeline::convert_to_worktree gives {:?} but `git checkout-index` writes {:?} (`git cat-file --filters`: {:?}) for stored {:?}",
+                    bytes.as_ref().map(|b| b.as_bstr()), g.as_bstr(), inmem[k].as_bstr(), w.as_bstr()),
+                &op,
+            );
+        }
+    }
+}
+
+/// the attribute line that applies to `name` (`c<i>_<k>`) in the cross-product .gitattributes
+fn attrs_of(attrs: &str, name: &str) -> String {
+    let prefix = format!("{}_*", name.split('_').next().unwrap_or(""));
+    attrs
+        .lines()
+        .find(|l| l.starts_with(&prefix))
+        .map(|l| l[prefix.len()..].trim().to_string())
+        .unwrap_or_default()
+}
+
 // ---------------------------------------------------------------------------------------------
 // replay: re-run op lines (building blocks and pipeline ops; the pipeline ops are re-evaluated on
 // the real code and re-checked against git with a one-file batch)
@@ -1251,6 +1425,15 @@ fn real_main() {
 
     let t_direct = std::time::Instant::now();
     rep.note(&format!("building blocks took {:.1}s", t_direct.duration_since(t_start).as_secs_f64()));
+    // the attribute cross product under every core.autocrlf x core.eol, both directions (both tiers)
+    {
+        let repos = Repos::new();
+        for ac in 0..AUTOCRLF.len() {
+            for e in 0..EOLS.len() {
+                run_cross(&mut rep, &repos, ac, e);
+            }
+        }
+    }
     // pipeline vs git, batched per configuration: the quick tier takes a seed-dependent third of the
     // fixed configurations plus a few random ones, the thorough tier all of them plus many
     let repos = Repos::new();
